@@ -39,7 +39,7 @@ def main():
         r = subprocess.run([os.path.join(V, "vcheck"), chk, "--tier", tier], cwd=V, env=env, capture_output=True, text=True)
         out = r.stdout + r.stderr
         if saved is not None:
-            open(evf, "w").write(saved)
+            pass  # vcheck writes no evidence for runs against another tree (VERIF_REPO); restoring here clobbered concurrent evidence runs
         viol = [l for l in out.splitlines() if l.startswith("VIOLATION")]
         inc = [l for l in out.splitlines() if l.startswith("INCONCLUSIVE")]
         check = {"cmd": "VERIF_REPO=%s %s./vcheck %s --tier %s" % (wt, ("VERIF_ONLY=%s " % only) if only else "", chk, tier),
